@@ -652,9 +652,14 @@ func (rp *replayer) clauseOnObserved(out string) (holds bool, msg string) {
 		return true, "no contract"
 	}
 	var clause *Clause
+	// (the name carries "#k" for the k-th return point)
+	oname := o.Name
+	if i := strings.LastIndex(oname, "#"); i > strings.LastIndex(oname, "/") {
+		oname = oname[:i]
+	}
 	for i := range spec.Ensures {
 		c := spec.Ensures[i]
-		if strings.HasSuffix(o.Name, "/ensures/"+clauseName(c, i)) {
+		if strings.HasSuffix(oname, "/ensures/"+clauseName(c, i)) {
 			clause = &spec.Ensures[i]
 		}
 	}
